@@ -14,6 +14,8 @@ import traceback
 
 import z3
 
+from . import seqs as Q
+
 from . import locate
 from .ty import *      # noqa
 from .values import *  # noqa
@@ -45,7 +47,7 @@ class Concretiser:
                 return None
             return self.val(dt.get(term), ty.inner)
         if isinstance(ty, TList):
-            n = m.eval(z3.Length(term), model_completion=True).as_long()
+            n = m.eval(Q.Length(term), model_completion=True).as_long()
             if n > 64:
                 raise CannotConcretise("list too long in model")
             return [self.val(term[i], ty.elem) for i in range(n)]
